@@ -500,6 +500,7 @@ sys.exit(1 if bad else 0)
 def plan(ctx):
     p = Plan("C05")
     contracts(ctx.registry)
+    p.oracles = ["native/oracle_C05.py"]
     fns = ["Manager.get_current_units", "Manager.set_current_units", "Manager.unset_current_units",
            "energy_units.__enter__", "energy_units.__exit__", "length_units.__enter__", "length_units.__exit__"]
     for f in ("convert_energy_2_internal_u", "convert_energy_2_current_u", "convert_frequency_2_internal_u",
